@@ -180,6 +180,14 @@ def ob(mode, shape, kcls, top, ksub=(KC_C, KC_L), feat=F_BF, excl=0, maxsize=Non
                         maxsize, what))
 
 
+# Recorded findings (see harness/C08/proposed-fixes.diff): 1 leading zero-width bit-field occupies a unit, 2 unnamed
+# bit-fields raise the alignment / take a whole unit, 3 bit-field after a bit-field of a narrower type misplaced,
+# 4 classify_arg makes the eightbyte of a zero-width bit-field INTEGER.  Findings repaired in /repo are no longer
+# excluded from the re-proofs (their .finding-* obligations stay as regression obligations and must hold);
+# set to () to check a tree without the fixes.
+FIXED_IN_REPO = (1, 3, 4)
+
+
 def obligations(tier):
     T, P, E, S, A, U, AU = ARITH, PTR, ENUM, NESTED, ANON, NESTED_U, ANON_U
     C, B, SH, I, L, F, D, LD, ANY = KC_C, KC_B, KC_S, KC_I, KC_L, KC_F, KC_D, KC_LD, KC_ANY
@@ -188,14 +196,17 @@ def obligations(tier):
     obs = []
     # --- the two recorded layout findings, smallest shape that shows each (expected: violated / known) ---
     obs.append(ob(0, [T, T], [I, I], 0, excl=1, timeout=to, tag=".finding-zero-width-bit-field"))
+    # finding 2, the only one left open: its two faces (width > 0 / width 0 after the fix of finding 1)
     obs.append(ob(0, [T, T], [C, I], 0, excl=2, timeout=to, tag=".finding-unnamed-bit-field"))
+    obs.append(ob(0, [T, T], [C, I], 0, excl=1, timeout=to, tag=".finding-unnamed-bit-field-zero-width"))
     obs.append(ob(0, [T, T, T], [C, I, L], 0, excl=3, timeout=to, tag=".finding-bit-field-after-narrower-unit"))
     obs.append(ob(1, [T, T], [D, I], 0, excl=0, timeout=to, tag=".finding-zero-width-bit-field-classified-INTEGER"))
     for mode in (0, 1):
         # layout: re-proved without the recorded layout findings (named bit-fields only); passing: assumes equal layout
         # anyway, re-proved without zero-width bit-fields (recorded finding: classify_arg makes their eightbyte INTEGER)
-        ex = 3 if mode == 0 else 2
-        tg = ".named-bf" if mode == 0 else ".no-zero-width"
+        # (unnamed bit-fields of every width stay excluded from the layout re-proofs because of finding 2)
+        ex = 3 if mode == 0 else (0 if 4 in FIXED_IN_REPO else 2)
+        tg = ".named-bf" if mode == 0 else ("" if 4 in FIXED_IN_REPO else ".no-zero-width")
         # one member: type fully symbolic
         for top in (0, 1):
             obs.append(ob(mode, [T], [ANY], top, excl=ex, maxsize=64, timeout=to, tag=tg))
@@ -220,7 +231,7 @@ def obligations(tier):
                     continue   # thorough tier (passing obligations with a nested aggregate next to another member: minutes)
                 obs.append(ob(mode, sh, kc, top, excl=ex, timeout=to, tag=tg))
         # three / four members
-        ex3 = 7 if mode == 0 else 2
+        ex3 = (3 if 3 in FIXED_IN_REPO else 7) if mode == 0 else ex
         triples = [[C, I, L], [L, C, D]] if quick else \
                   [[C, I, L], [I, I, I], [L, C, D], [C, C, C], [I, C, I], [L, I, C], [D, F, F], [LD, C, L], [SH, C, I], [B, I, B],
                    [I, L, I], [C, SH, L], [F, I, F], [L, L, L]]
@@ -264,10 +275,11 @@ def check(tier, only=None):
             "sizeof": "<= min(64, max(16 * smallest member size, size of the declaration without bit-fields)); this keeps "
                       "update_field_layout's backward scan within the per-loop unwinding bound (unwinding assertions on)",
             "nesting": "depth 2 (members of nested/anonymous aggregates are arithmetic types, bit-fields or (thorough) arrays)",
-            "re-proofs": "layout obligations named .named-bf exclude the recorded findings (unnamed and zero-width bit-fields; "
-                         "for >= 3 members also a bit-field directly after a bit-field of a narrower declared type); passing "
-                         "obligations named .no-zero-width exclude zero-width bit-fields; the .finding-* obligations show "
-                         "each finding on its smallest shape",
+            "re-proofs": "layout obligations named .named-bf exclude unnamed bit-fields of every width (open finding 2: they "
+                         "raise the alignment / take a whole unit; shown by the two .finding-unnamed-bit-field* obligations); "
+                         "the other .finding-* obligations are the regression obligations of the repaired findings 1, 3, 4 "
+                         "(FIXED_IN_REPO in props/C08.py; on a tree without the fixes they are violated and the re-proofs "
+                         "would additionally have to exclude them)",
         },
         "assumptions": [
             "no c2mir_init: the type/node/decl graph is built by the harness in the state check() leaves before "
